@@ -369,7 +369,7 @@ def rule_lookahead(prog):
     call in the loop body gets mutable access to the same iterator (directly or through by_ref)."""
     from kq.core import proj
     from rules.r_loopvar import loops_of
-    res = RuleResult("R-WAIT-LOOKAHEAD", "tap-hold decision closures never consume the queue iterator inside their scan of it", floor=2)
+    res = RuleResult("R-WAIT-LOOKAHEAD", "tap-hold decision closures never consume the queue iterator inside their scan of it", floor=1)
 
     def base(f, op, depth=0):
         """the local an iterator operand ultimately borrows from (through &mut, by_ref, into_iter, moves)"""
